@@ -8,6 +8,7 @@ list, every `ext` script, every W and every schedule (induction over `Reachable`
 import SxVerif.Proofs.EngineC12
 import SxVerif.Generated.StagesEngine
 import SxVerif.Generated.Constants
+import SxVerif.Generated.Receiver
 import SxVerif.Generated.Problems
 
 namespace SxVerif.C16
@@ -25,6 +26,12 @@ theorem exit_delay_wired :
     exitDelayFlags.length = 2 ∧ exitDelayFlags.all (·.2) = true ∧ exitDelayConfig = true ∧
     defaultExitDelayNs = 300000000 ∧ controllerShape controllerOrder = true ∧
     guardsAsModelled engineStages = true ∧ guardedOnReturnPath engineStages = true := by decide
+
+/-- (T) a reply that arrives during the exit delay is read in time only if the receive loop is not
+    asleep: its pause after an unknown read error is a constant of the source (regenerated from
+    receiver.go; a back-off or any other non-constant wait is a translator problem), and that constant is
+    at most a tenth of the default exit delay -/
+theorem receiver_pause_small : 0 < recvErrorPauseNs ∧ recvErrorPauseNs * 10 ≤ defaultExitDelayNs := by decide
 
 variable {c : Cfg} {reqs : List Req} {ext : List (Nat × Nat)} {s : Sys}
 
